@@ -964,7 +964,75 @@ def m12_rbf_pays_for_everything_it_replaces(S):
     S.witness(ctx, ob, "reach_accept", [], accept)
 
 
-OBLIGATIONS = [m1_aggregate_steps, m2_initial_and_reset, m3_score_key, m4_evict_key, m5_reported_info, m6_score_key_transitive, m7_counters, m8_links_recorded_for_a_new_entry, m9_aggregates_after_a_late_parent, m10_aggregates_after_removing_a_subtree, m11_detached_proposal_readds_parents_first, m12_rbf_pays_for_everything_it_replaces]
+def m13_links_closure(S):
+    """`TxLinksMap` (tx-pool/src/component/links.rs) with its hash containers as association lists with SYMBOLIC keys: n transactions are registered (`add_link`), m child links
+    with symbolic end points are added (`add_child`; an end point may be any registered id, another symbol, or the source itself -- cycles and dangling targets included), then
+    `calc_descendants(x)` for a symbolic x.  Decided for every aliasing of the ids: a link is recorded iff its source is registered; the answer is exactly the set of ids reachable
+    from x over recorded links in one or more steps (the transitive closure the ancestor/descendant counts, eviction and replacement rely on), and the loop terminates also on cycles."""
+    from mir2smt import symmap as SM
+    from mir2smt.exec import Driver, ListV, EnumV
+    ob = "C11.m13"
+    imp = r"links::<impl at tx-pool/src/component/links.rs:\d+:1: \d+:16>::"
+    fn = lambda short, np: [x for x in S.prog.funcs if x.kind == "fn" and re.search(imp + short + "$", x.name) and len(x.params) == np]
+    f_add, f_child, f_desc = fn("add_link", 3), fn("add_child", 3), fn("calc_descendants", 2)
+    if not (len(f_add) == len(f_child) == len(f_desc) == 1):
+        raise Inconclusive("TxLinksMap functions not found")
+    f_add, f_child, f_desc = f_add[0], f_child[0], f_desc[0]
+    tl = struct_fields("tx-pool/src/component/links.rs", "TxLinks")
+    for n, m in (((2, 2), (3, 2)) if S.tier == "quick" else ((2, 2), (3, 2), (3, 3))):
+        ctx = S.ctx(unwind=2 * (n + m) + 8)
+        ctx.uninterpreted_unknown_calls = True
+        ctx.prune_with_solver = True
+        ctx.max_paths = 80000
+        ids = [ctx.int(f"id!tx{i}", "u64").t for i in range(n)]
+        src = [ctx.int(f"id!src{k}", "u64").t for k in range(m)]
+        dst = [ctx.int(f"id!dst{k}", "u64").t for k in range(m)]
+        x = ctx.int("id!x", "u64").t
+        for i in range(n):
+            for j in range(i):
+                ctx.add_side(T.ne(ids[i], ids[j]))        # registered transactions are different transactions
+        links = ctx.ref_to(AggV((SM.MapV((), "HashMap<ProposalShortId, TxLinks>"),), "TxLinksMap"))
+        ctx.env = list(E.LOGGING_OFF) + [
+            (E.rx(r"<ProposalShortId as Clone>::clone$"), lambda ex, c, a, d: deref(ex, a[0])),
+        ] + SM.handlers(r"(ckb_types::packed::)?ProposalShortId") + SM.EXTRAS + list(E.LIST_ADAPTORS)
+        oid = lambda name: OpaqueV(name, "ProposalShortId")
+
+        def body(ex):
+            for i in range(n):
+                ex.call_function(f_add, [links, oid(f"tx{i}"), AggV(tuple(SM.MapV((), "HashSet<ProposalShortId>", True) for _ in tl), "TxLinks")])
+            rec = []
+            for k in range(m):
+                r_ = ex.call_function(f_child, [links, ex.ctx.ref_to(oid(f"src{k}")), oid(f"dst{k}")])
+                rec.append(r_.disc if isinstance(r_, EnumV) and isinstance(r_.disc, int) else None)
+            out = ex.call_function(f_desc, [links, ex.ctx.ref_to(oid("x"))])
+            return rec, [it_[0] for it_ in out.items] if isinstance(out, SM.MapV) else None
+        ps = S.run(ctx, Driver(f"links_{n}_txs_{m}_links_then_descendants", body), [])
+        tag = f"{n}_txs_{m}_links"
+        S.prove(ctx, ob, f"{tag}_no_panic_and_the_closure_loop_terminates", [], T.not_(cond_of(panics(ps))))
+        reg = lambda t: T.or_(*[T.eq(t, i_) for i_ in ids])
+        live = [reg(src[k]) for k in range(m)]
+        # reachable from x in >= 1 steps over the recorded links (m rounds suffice for m links)
+        R = [T.and_(live[k], T.eq(src[k], x)) for k in range(m)]          # R[k]: dst_k is reached through link k
+        for _ in range(m):
+            R = [T.and_(live[k], T.or_(T.eq(src[k], x), *[T.and_(R[j], T.eq(dst[j], src[k])) for j in range(m) if j != k])) for k in range(m)]
+        g_rec, g_set = [], []
+        for pth in returns(ps):
+            rec, items = pth.value
+            c = pth.cond()
+            g_rec.append(T.implies(c, T.and_(*[T.iff(bool(rec[k] == 1), live[k]) if rec[k] is not None else False for k in range(m)])))
+            if items is None:
+                g_set.append(T.not_(c))
+                continue
+            g_set.append(T.implies(c, T.and_(*[T.iff(T.or_(*[T.and_(R[j], T.eq(dst[j], dst[k])) for j in range(m)]), T.or_(*[T.eq(t, dst[k]) for t in items]) if items else False) for k in range(m)],
+                                             *[T.or_(*[T.and_(R[k], T.eq(t, dst[k])) for k in range(m)]) for t in items],
+                                             *[T.ne(items[a_], items[b_]) for a_ in range(len(items)) for b_ in range(a_)])))
+        S.prove(ctx, ob, f"{tag}_a_child_link_is_recorded_iff_its_source_is_a_pooled_transaction", [], T.and_(*g_rec))
+        S.prove(ctx, ob, f"{tag}_descendants_are_exactly_the_ids_reachable_over_recorded_links", [], T.and_(*g_set))
+        S.witness(ctx, ob, f"{tag}_reach_two_step_chain", [], T.and_(T.eq(src[0], x), T.eq(dst[0], src[1]), live[0], live[1], T.ne(dst[1], dst[0])))
+        S.witness(ctx, ob, f"{tag}_reach_cycle", [], T.and_(T.eq(src[0], x), T.eq(dst[0], src[1]), T.eq(dst[1], src[0]), live[0], live[1]))
+
+
+OBLIGATIONS = [m1_aggregate_steps, m2_initial_and_reset, m3_score_key, m4_evict_key, m5_reported_info, m6_score_key_transitive, m7_counters, m8_links_recorded_for_a_new_entry, m9_aggregates_after_a_late_parent, m10_aggregates_after_removing_a_subtree, m11_detached_proposal_readds_parents_first, m12_rbf_pays_for_everything_it_replaces, m13_links_closure]
 TECHNIQUE = "symbolic execution of rustc MIR -> integer-theory SMT (cvc5 + z3); counterexamples replayed in a native build of the same source files"
 DESIGN_REF = "DESIGN.md section 4 (C11)"
 
